@@ -133,6 +133,11 @@ def rule_keytable(ctx):
         conds = symeval.pc_conds(r.pc)
         last = conds[-1] if conds else None
         rows.append((lit(r.term), last))
+    sem = _keytable_semantic(ctx, f, s, R)
+    if sem is not None:
+        yield from sem
+        yield from _keytable_names(ctx, R)
+        return
     # docstring grid
     grid = [float(x) for x in re.findall(r"\|\s*([0-9]\.[0-9]+)\s*\|", f.doc)]
     scores = sorted({v for v, _ in rows}, reverse=True)
@@ -165,7 +170,7 @@ def rule_keytable(ctx):
         table_rows.setdefault((v, tuple(iv)), []).append(txt)
     fifth = [(k, t) for k, t in table_rows.items() if k != "else" and k[1] == (7,)]
     rel = [(k, t) for k, t in table_rows.items() if k != "else" and k[1] in ((9,), (3,))]
-    yield ob(R, f, "key.weighted_score:fifth", len(fifth) == 1 and fifth[0][0][0] == 0.5 and "'major'" not in fifth[0][1][0], "a perfect fifth above ((est - ref) %% 12 == 7) in the same mode scores 0.5")
+    yield ob(R, f, "key.weighted_score:fifth", len(fifth) == 1 and fifth[0][0][0] == 0.5 and "'major'" not in fifth[0][1][0], "a perfect fifth above ((est - ref) mod 12 == 7) in the same mode scores 0.5")
     good_rel = {k[1][0] for k, _ in rel} == {9, 3} and all(k[0] == 0.3 for k, _ in rel)
     if good_rel:
         for k, t in rel:
@@ -181,6 +186,90 @@ def rule_keytable(ctx):
     # decision order: identical first, X second
     order = [v for v, _ in rows]
     yield ob(R, f, "key.weighted_score:order", order[:2] == [1.0, 0.0] and order == [1.0, 0.0, 0.5, 0.3, 0.3, 0.2, 0.0], "decisions are taken in the order same / X / fifth / relative / relative / parallel / other: %s" % order)
+    KT = table(ctx, "key.KEY_TO_SEMITONE", R)
+    nat = dict(zip("cdefgab", oracles.MAJOR_SCALE))
+    bad = []
+    for k, v in KT.items():
+        if k == "x":
+            if v is not None:
+                bad.append(k)
+            continue
+        exp = (nat[k[0]] + k.count("#") - k[1:].count("b")) % 12
+        if v != exp:
+            bad.append(k)
+    yield ob(R, "mir_eval/key.py:24", "key.KEY_TO_SEMITONE", not bad and len(KT) == 18, "all %d key names map to letter arithmetic mod 12 (bad: %s)" % (len(KT), bad))
+
+
+def _key_oracle(rk, ek, rm, em):
+    """MIREX key score as documented in key.weighted_score (None = uncategorised key 'X')."""
+    if rk == ek and rm == em:
+        return 1.0
+    if rk is None or ek is None:
+        return 0.0
+    iv = (ek - rk) % 12
+    if em == rm and iv == 7:
+        return 0.5
+    if em != rm and rm == "major" and iv == 9:
+        return 0.3
+    if em != rm and rm == "minor" and iv == 3:
+        return 0.3
+    if em != rm and rk == ek:
+        return 0.2
+    return 0.0
+
+
+def _keytable_semantic(ctx, f, s, R):
+    """Decide the whole decision list at once: key numbers and modes are touched only through ==, `is None` and
+    (est - ref) % 12, so the function is determined by its values on {None, 0..11}^2 x {major, minor, other}^2 -
+    1369 inputs on which the returned literal must equal the documented MIREX table.  Returns the obligations, or
+    None when the terms are outside what the interpreter reads (the syntactic reading below then applies)."""
+    from .. import finmodel
+
+    parts = {}
+    for r in s.returns:
+        for x in list(tm.walk(r.term)) + [y for c, _ in symeval.pc_conds(r.pc) for y in tm.walk(c)]:
+            if x.op == "sub" and x.a[1].op == "const" and x.a[0].op == "call" and call_name(x.a[0]) == "key.split_key_string" and x.a[0].a[1][0].op == "param":
+                parts[(role_of(x.a[0].a[1][0].a[0]), int(x.a[1].a[0]))] = x
+    if set(parts) != {("R", 0), ("R", 1), ("E", 0), ("E", 1)}:
+        return None
+    rows = [(r.term, list(symeval.pc_conds(r.pc))) for r in s.returns]
+    I = finmodel.Interp(ctx)
+    # split_key_string gives (None, None) for "X" and (0..11, mode) otherwise
+    sides = [(None, None)] + [(k, m) for k in range(12) for m in ("major", "minor", "other")]
+    bad = []
+    n = 0
+    for rk, rm in sides:
+        for ek, em in sides:
+            if True:
+                if True:
+                    env = {parts[("R", 0)].id: rk, parts[("E", 0)].id: ek, parts[("R", 1)].id: rm, parts[("E", 1)].id: em}
+                    got = finmodel.decide(rows, env, I)
+                    if got is None:
+                        return None
+                    n += 1
+                    want = _key_oracle(rk, ek, rm, em)
+                    if float(got[0]) != want:
+                        bad.append(((rk, rm), (ek, em), got[0], want))
+    out = []
+    for name, pred, what in (
+        ("fifth", lambda b: b[3] == 0.5 or b[2] == 0.5, "a perfect fifth above ((est - ref) mod 12 == 7) in the same mode scores 0.5"),
+        ("relative", lambda b: b[3] == 0.3 or b[2] == 0.3, "relative minor of a major reference (+9) and relative major of a minor reference (+3) score 0.3"),
+        ("parallel", lambda b: b[3] == 0.2 or b[2] == 0.2, "same tonic in a different mode scores 0.2"),
+        ("uncategorised", lambda b: (b[0][0] is None or b[1][0] is None), "an uncategorised (X) key on either side scores 0.0 unless both are X"),
+        ("other", lambda b: True, "everything else scores 0.0"),
+    ):
+        mine = [b for b in bad if pred(b)]
+        bad = [b for b in bad if b not in mine]
+        w = mine[0] if mine else None
+        out.append(ob(R, f, "key.weighted_score:%s" % name, not mine, what if not mine else "%s - but weighted_score(ref=%s, est=%s) evaluates to %s, documented %s (%d disagreeing inputs)" % (what, w[0], w[1], w[2], w[3], len(mine))))
+    out.append(ob(R, f, "key.weighted_score:decision-table", True, "the returned literal was evaluated on all %d pairs of {X} + {0..11} x {major, minor, other} and compared with the documented table" % n))
+    grid = [float(x) for x in re.findall(r"\|\s*([0-9]\.[0-9]+)\s*\|", f.doc)]
+    scores = sorted({float(lit(r.term)) for r in s.returns if is_lit(r.term)}, reverse=True)
+    out.append(ob(R, f, "key.weighted_score:scores-vs-docstring", sorted(set(grid), reverse=True) == scores and len(grid) == 5, "returned scores %s equal the five scores of the docstring table %s" % (scores, grid)))
+    return out
+
+
+def _keytable_names(ctx, R):
     KT = table(ctx, "key.KEY_TO_SEMITONE", R)
     nat = dict(zip("cdefgab", oracles.MAJOR_SCALE))
     bad = []
